@@ -108,3 +108,21 @@ Theorem C04_parser_output_good :
   forall input strip wh p, parse_patch input strip wh = Ok (Parsed p) -> Forall parsed_ok (pp_fps p).
 Proof. exact parse_patch_good. Qed.
 Print Assumptions C04_parser_output_good.
+
+(* ---------- whole histories (several file patches, several patches) at tree level ---------- *)
+From RQ Require Import ViewSim UndoChain.
+
+(* [steps fs st h st2]: st2 is reached from st by any number of file-patch applications (each on a state within the
+   size limits, for a file patch the parser accepts); h lists, newest first, each recorded status with the file as it
+   was loaded for it.  Undoing the recorded statuses newest first - from the overlay reached, or from any overlay
+   similar to it - never fails, gives every name back as it was in st (same lines, existence, effective mode), and
+   hands out at each step a file similar to the one that was loaded for that file patch. *)
+Theorem C04_tree_whole_history :
+  forall dm fs, disk_ok fs -> forall st h st2, steps fs st h st2 ->
+    a_applied st2 = List.map fst h ++ a_applied st /\ grows (a_files st) (a_files st2) /\
+    Forall (skeys allK (a_files st2)) (List.map fst h) /\
+    forall ovA, wsim allK dm fs ovA fs (a_files st2) -> Forall (skeys allK ovA) (List.map fst h) ->
+    exists ov_end l, undo_all ovA (List.map fst h) = ROk (ov_end, l) /\ wsim allK dm fs ov_end fs (a_files st) /\
+                     hsim dm h l /\ grows ovA ov_end.
+Proof. exact undo_chain. Qed.
+Print Assumptions C04_tree_whole_history.
